@@ -30,22 +30,25 @@ class Transport(StringTransport):
 class Proxy:
     """viewer <-> VNCLoggingServerProxy <-> VNCLoggingClientProxy <-> server"""
 
-    def __init__(self, password_required=False, t0_ticks=0):
-        self.clock = FakeTime()
+    def __init__(self, password_required=False, t0_ticks=0, factory=None, clock=None):
+        self.clock = clock or FakeTime()
         self.base = 1000.0
         self.set_ticks(t0_ticks)
         lp.time = self.clock
-        self.factory = lp.VNCLoggingServerFactory("server.example", 5900)
-        self.factory.password_required = password_required
         self.writes = []                      # recorder writes
-        out = self
+        if factory is None:
+            self.factory = lp.VNCLoggingServerFactory("server.example", 5900)
+            self.factory.password_required = password_required
+            out = self
 
-        class Out:
-            def write(self, s):
-                out.writes.append(s)
-                return len(s)
+            class Out:
+                def write(self, s):
+                    out.writes.append(s)
+                    return len(s)
 
-        self.factory.output = Out()
+            self.factory.output = Out()
+        else:
+            self.factory = factory
         self.server_side = self.factory.buildProtocol(None)      # VNCLoggingServerProxy (talks to the viewer)
         self.server_side.reactor = MemoryReactor()
         self.viewer_transport = Transport()
@@ -71,6 +74,17 @@ class Proxy:
     def from_server(self, data: bytes):
         try:
             self.client_side.dataReceived(data)
+            return None
+        except Exception as e:  # noqa: BLE001
+            self.error = e
+            return e
+
+    def lose(self):
+        """the viewer disconnects: connectionLost on the viewer leg (-> factory.clientConnectionLost)"""
+        from twisted.internet import error
+        from twisted.python.failure import Failure
+        try:
+            self.server_side.connectionLost(Failure(error.ConnectionDone()))
             return None
         except Exception as e:  # noqa: BLE001
             self.error = e
